@@ -115,7 +115,11 @@ def run(F, rep, tier):
     # a decoded value must sit in the row of its own event: frames are bracketed for every version class
     import reach
     from props import C04
-    C04.bracketing_rule(F, reach.Graph(F), rep, M)
+    G_ = reach.Graph(F)
+    C04.bracketing_rule(F, G_, rep, M)
+    # .. and absent characters are padded up to the number of frames, or every later row of that character shifts
+    C04.padding_rule(F, G_, rep)
+    C04.data_mut_rule(F, rep)
     n_gated = sum(1 for s in model.EVENT_STRUCTS for f in M.spec[s]["fields"] if f.get("since"))
     rep.counts["version_classes"] = len(M.classes)
     rep.counts["spec_fields"] = sum(len(M.spec[s]["fields"]) for s in model.EVENT_STRUCTS)
